@@ -4,6 +4,8 @@
 //! `StatefulEncoder` directly to observe `bytes_written`.
 #[path = "c01/gen.rs"]
 mod gen;
+#[path = "c01/wr.rs"]
+mod wr;
 
 use dicom_core::header::{DataElementHeader, Length};
 use dicom_core::{PrimitiveValue, Tag, VR};
@@ -12,112 +14,11 @@ use dicom_encoding::encode::explicit_le::ExplicitVRLittleEndianEncoder;
 use dicom_encoding::encode::implicit_le::ImplicitVRLittleEndianEncoder;
 use dicom_encoding::encode::{Encode, EncoderFor};
 use dicom_encoding::text::SpecificCharacterSet;
-use dicom_encoding::transfer_syntax::{Codec, TransferSyntaxIndex};
-use dicom_encoding::TransferSyntax;
 use dicom_object::InMemDicomObject;
-use dicom_parser::dataset::write::{DataSetWriterOptions, ExplicitLengthSqItemStrategy};
 use dicom_parser::stateful::encode::StatefulEncoder;
-use dicom_transfer_syntax_registry::TransferSyntaxRegistry;
 use gen::*;
-use std::io::Read;
+use wr::*;
 use verif_harness::util::*;
-
-pub const TS_UIDS: [&str; 4] = ["1.2.840.10008.1.2", "1.2.840.10008.1.2.1", "1.2.840.10008.1.2.2", "1.2.840.10008.1.2.1.99"];
-
-pub fn ts_of(k: u8) -> &'static TransferSyntax {
-    TransferSyntaxRegistry.get(TS_UIDS[k as usize]).expect("transfer syntax registered")
-}
-
-/// inflate with dicom-rs' own adapter; None when the stream is not a complete deflate stream
-fn inflate(ts: &TransferSyntax, raw: &[u8]) -> Option<Vec<u8>> {
-    if let Codec::Dataset(Some(adapter)) = ts.codec() {
-        let mut r = adapter.adapt_reader(Box::new(raw));
-        let mut out = Vec::new();
-        match r.read_to_end(&mut out) {
-            Ok(_) => Some(out),
-            Err(_) => None,
-        }
-    } else {
-        None
-    }
-}
-
-fn show(ts_k: u8, res: Result<Result<Vec<u8>, ()>, String>) -> String {
-    match res {
-        Err(_) => "panic".into(),
-        Ok(Err(())) => "err".into(),
-        Ok(Ok(raw)) => {
-            // `ok:<raw bytes>:<inflated bytes or ->` (inflation attempted for the deflated syntax only)
-            let inf = if ts_k == 3 { inflate(ts_of(3), &raw) } else { None };
-            match inf {
-                Some(i) => format!("ok:{}:{}", hex(&raw), hex(&i)),
-                None => format!("ok:{}:x", hex(&raw)),
-            }
-        }
-    }
-}
-
-/// the three write calls: default API, options API with SetUndefined, options API with NoChange
-pub fn write_all_ways(obj: &InMemDicomObject, ts_k: u8) -> [String; 3] {
-    let ts = ts_of(ts_k);
-    let a = catch(std::panic::AssertUnwindSafe(|| {
-        let mut out = Vec::new();
-        obj.write_dataset_with_ts(&mut out, ts).map(|_| out).map_err(|_| ())
-    }));
-    let mk = |strat| {
-        catch(std::panic::AssertUnwindSafe(|| {
-            let mut out = Vec::new();
-            let opts = DataSetWriterOptions::default().explicit_length_sq_item_strategy(strat);
-            obj.write_dataset_with_ts_options(&mut out, ts, opts).map(|_| out).map_err(|_| ())
-        }))
-    };
-    let b = mk(ExplicitLengthSqItemStrategy::SetUndefined);
-    let c = mk(ExplicitLengthSqItemStrategy::NoChange);
-    [show(ts_k, a), show(ts_k, b), show(ts_k, c)]
-}
-
-/// object for a case: path A (constructors) or path B (consistent explicit lengths, via the
-/// reference encoder + dicom-rs reader in the same syntax)
-pub fn case_object(r: &mut Rng, ts_k: u8, depth: u32) -> (InMemDicomObject, &'static str) {
-    let path_b = r.chance(1, 3);
-    // (a zero-length fragment does not survive reading, so explicit lengths read back would be stale)
-    let o = GenOpts { max_depth: depth, empty_frags: !path_b, ..Default::default() };
-    let nodes = gen_dataset(r, 0, &o);
-    if path_b {
-        let mode = r.below(3);
-        let seed = r.next_u64();
-        let explicit = move |d: u32, k: usize| -> (bool, bool) {
-            let h = seed.wrapping_mul(0x9E3779B97F4A7C15 ^ ((d as u64) << 32 | k as u64)).rotate_left(17);
-            match mode {
-                0 => (true, true),
-                1 => (h & 1 == 1, h & 2 == 2),
-                _ => (h & 1 == 1, true),
-            }
-        };
-        let enc_ts = if ts_k == 3 { 1 } else { ts_k };
-        let bytes = ref_encode(&nodes, enc_ts, &explicit, 0);
-        // read with the uncompressed syntax (Deflated = Explicit VR LE after inflation)
-        if let Ok(obj) = InMemDicomObject::read_dataset_with_ts(&bytes[..], ts_of(enc_ts)) {
-            return (obj, "B");
-        }
-    }
-    (to_object(&nodes), "A")
-}
-
-/// fixed witness (index 0): Explicit VR LE, a sequence whose first item holds an encapsulated Pixel Data
-/// element and whose second item has an explicit length and contains a defined-length sequence
-pub const WITNESS_PIXEL_THEN_ITEM: &[u8] = &[
-    0x08, 0x00, 0x40, 0x11, b'S', b'Q', 0, 0, 0xff, 0xff, 0xff, 0xff, // (0008,1140) SQ undefined
-    0xfe, 0xff, 0x00, 0xe0, 0xff, 0xff, 0xff, 0xff, // item, undefined
-    0xe0, 0x7f, 0x10, 0x00, b'O', b'B', 0, 0, 0xff, 0xff, 0xff, 0xff, // (7FE0,0010) OB undefined
-    0xfe, 0xff, 0x00, 0xe0, 0, 0, 0, 0, // empty offset table
-    0xfe, 0xff, 0xdd, 0xe0, 0, 0, 0, 0, // sequence delimiter
-    0xfe, 0xff, 0x0d, 0xe0, 0, 0, 0, 0, // item delimiter
-    0xfe, 0xff, 0x00, 0xe0, 20, 0, 0, 0, // item, length 20
-    0x08, 0x00, 0x40, 0x11, b'S', b'Q', 0, 0, 8, 0, 0, 0, // (0008,1140) SQ length 8
-    0xfe, 0xff, 0x00, 0xe0, 0, 0, 0, 0, // item, length 0
-    0xfe, 0xff, 0xdd, 0xe0, 0, 0, 0, 0, // sequence delimiter
-];
 
 fn witness_case() -> String {
     let obj = InMemDicomObject::read_dataset_with_ts(WITNESS_PIXEL_THEN_ITEM, ts_of(1)).expect("witness is readable");
